@@ -198,6 +198,7 @@ func (ls *lockState) summary(fn *ssa.Function, entry string) []lsExit {
 			}
 			return outs, true
 		},
+		Infeasible: shardAxiom,
 		Exit: func(x *core.X, rets []core.Expr) {
 			e := lsExit{held: ls.heldSet(x)}
 			if len(rets) == 1 && (rets[0].S == "true" || rets[0].S == "false") {
@@ -315,4 +316,12 @@ func (ls *lockState) run() {
 	ls.r.Stats["lockstate_contexts_explored"] = ls.Explored
 	ls.r.Stats["lockstate_steps"] = ls.Steps
 	ls.r.Stats["lockstate_unreachable_functions"] = len(ls.Dead)
+}
+
+// shardAxiom: a LockDB has at least one shard (NewLockDB sets managerMaxGlocks
+// to the configured concurrency or 2*NumCPU, never 0), so a loop over all
+// shards runs at least once.
+func shardAxiom(a core.Atom) bool {
+	l := core.Plain(a.L)
+	return strings.HasSuffix(l, ".managerMaxGlocks") && (a.Op == "<=" && a.R == "0" || a.Op == "==" && a.R == "0")
 }
